@@ -281,7 +281,7 @@ class SList:
             elem = type_of(items[0])
 
         def get(k, items=items):
-            if isinstance(k, int):
+            if isinstance(k, int) and (items or elem is None):
                 return items[k]
             if not items:
                 # guarded by 0 <= k < 0 wherever it is used: any value of the element type will do
